@@ -917,4 +917,19 @@ theorem handshake_right_generated_nonce (H : Hashes) (hH : HexLike H) (methods :
   obtain ⟨h1, h2, h3, _⟩ := this
   exact ⟨by simp only [out, r]; rw [h1], h2, h3⟩
 
+
+
+/-- once the client holds a sender for the connection's challenge, every further request it sends
+(any method, any URL without `"`) is accepted and the connection stays open: the nonce is per
+connection, not per request -/
+theorem subsequent_requests_accepted (H : Hashes) (hH : HexLike H) (methods : List VerifyMethod)
+    (hm : ValidMethods (some methods)) (user pass n : Bytes) (hu : user ≠ []) (hn : n ≠ [])
+    (r : ClientReq) (wf : WF user serverAuthRealm n r.urlStr) (fresh : Option Bytes) :
+    ∃ ch, senderInit (generateWWW (some methods) serverAuthRealm n) = some ch ∧
+      serve H methods user pass { nonce := n, closed := false } fresh (wireReq H (some (ch, user, pass)) r)
+        = ({ nonce := n, closed := false }, { status := 200, www := none, closed := false }) := by
+  obtain ⟨ch, hinit, hver⟩ := complete H hH (some methods) hm user pass serverAuthRealm n r.method r.urlStr r.urlReq wf
+  refine ⟨ch, hinit, ?_⟩
+  exact serve_right_credentials H methods user pass hu { nonce := n, closed := false } hn fresh _ hver
+
 end Rtsp.Auth
